@@ -18,26 +18,8 @@ def run_spec(check, vh, name, args, clauses, devs, shards=8, on_fail=None, docs_
         a = [vh, "drive-spec", "-out", wd, "-shard", "%d/%d" % (k, shards)] + [str(x) for x in args]
         if docs_file:
             a += ["-docs", docs_file]
-        # a validation that hangs or kills the driver (fatal error) is noted by the driver in current.txt before it starts; the
-        # run is started again with that validation reported as "hang" / "crash" instead of being executed
-        dead = []
-        while True:
-            shutil.rmtree(wd, ignore_errors=True)
-            p = common.run(a + (["-crashed", ",".join(dead)] if dead else []), timeout=3 * 3600, check=False)
-            if p.returncode == 0:
-                break
-            cur = os.path.join(wd, "current.txt")
-            if not os.path.exists(cur) or len(dead) >= 6:
-                raise Inconclusive("drive-spec failed (%d):\n%s" % (p.returncode, p.stderr[-3000:]))
-            c = open(cur).read().strip()
-            if c.count(":") == 1:
-                if "fatal error" not in p.stderr:
-                    raise Inconclusive("drive-spec failed (%d):\n%s" % (p.returncode, p.stderr[-3000:]))
-                c += ":crash"
-            if c in dead:
-                raise Inconclusive("drive-spec died twice on the same validation: %s" % c)
-            common.log("[drive-spec] %s: the driver process ended while validating document %s - run started again without it" % (name, c))
-            dead.append(c)
+        # a validation that hangs or kills the driver (fatal error) is reported as hang / crash, see common.run_resumable
+        common.run_resumable(a, wd, name)
         meta = json.load(open(os.path.join(wd, "meta.json")))
         fails_all = []
         for c in schemafam.chunks(wd):
